@@ -179,7 +179,10 @@ def make_env(S, runner_file, script, status, cap, observe):
                 except (Deadlock, BadChoice):
                     pass
                 except BaseException as e:       # an exception in the helper thread is an observation
-                    observe('helper_exception', '%s: %s' % (type(e).__name__, e))
+                    if isinstance(e, AttributeError) and 'SimpleNamespace' in str(e):
+                        observe('seam', str(e))
+                    else:
+                        observe('helper_exception', '%s: %s' % (type(e).__name__, e))
                 finally:
                     sys.settrace(None)
                     S.finish(self.name)
@@ -214,6 +217,11 @@ def execute(choices, runner, call, script, status, cap):
     try:
         rc = call()
         res = ('ok', rc)
+    except AttributeError as e:
+        if 'SimpleNamespace' in str(e):
+            res = ('seam', str(e))      # the runner uses a part of os / subprocess / threading the shim does not model
+        else:
+            raise
     except Deadlock as e:
         res = ('deadlock', str(e))
     except AssertionError as e:
